@@ -24,6 +24,9 @@
 (*   StrIdSkipsMembership AssociationValidator returns early for str values (validators.py:195-200)*)
 (*   PgTypeNeedsEntity    PropertyGroupValidator dereferences value.property_group_type on a raw   *)
 (*                        uuid / str (validators.py:221-223)                                       *)
+(*   MultiItemsUnchecked  a list given to a multiSelect form is accepted as a whole: TypeValidator wraps it *)
+(*                        (validators.py:299-300), UUIDValidator and AssociationValidator only look at     *)
+(*                        scalars (:195-200, :323); only the data setter's promotion checks uuid items     *)
 (*   OneOfPopped          validate_data pops "one_of" from the shared rule table (validation.py:288)*)
 (*   PoolKeepsErrors      EnforcerPool._raise_errors leaves _errors filled after an aggregate      *)
 (*                        error (enforcers.py:351-356)                                             *)
@@ -56,12 +59,12 @@ Class(v) ==
       [] v \in {"True", "False"} -> "Bool"
       [] v = "Int" -> "Int"
       [] v = "Float" -> "Float"
-      [] v \in {"Str", "Choice", "SidData", "SidOther", "SidObj", "SidBogus"} -> "Str"
+      [] v \in {"Str", "EmptyStr", "Choice", "SidData", "SidOther", "SidObj", "SidBogus"} -> "Str"
       [] v \in {"UidData", "UidOther", "UidObj", "UidGroup", "UidBogus", "UidPg3D", "UidPgMulti"} -> "Uuid"
       [] v \in {"EntData", "EntOther", "EntObj", "EntObjB", "EntGroup", "EntForeign", "EntForeignObj",
                 "EntInt", "EntCurve"} -> "Entity"
       [] v \in {"Pg3D", "PgMulti", "PgOther"} -> "PGroup"
-      [] v \in {"ListStr", "ListInt"} -> "List"
+      [] v \in {"ListStr", "ListInt", "LUidObj", "LEntObj", "LUidObjBogus", "LEntForeign"} -> "List"
       [] v = "Ws" -> "Workspace"
 
 \* what an identifier-like value designates
@@ -84,13 +87,19 @@ Ref(v) ==
 WellFormedId(v) == Class(v) \in {"Uuid", "Entity", "PGroup"} \/ (Class(v) = "Str" /\ Ref(v) # "none")
 InWorkspace(r) == r \in {"data", "other", "obj", "objb", "group", "pg3d", "pgmulti", "pgother", "intdata", "curve"}
 InParentA(r) == r \in {"data", "pg3d", "pgmulti", "intdata"}      \* descendants of object A
-Member(scope, r) == IF scope = "workspace" THEN InWorkspace(r) ELSE InParentA(r)
+InGroupG(r) == r \in {"obj", "data", "pg3d", "pgmulti", "intdata"}       \* descendants of the container group of A
+Member(scope, r) == CASE scope = "workspace" -> InWorkspace(r) [] scope = "group" -> InGroupG(r)
+                      [] OTHER -> InParentA(r)
 PgTypeOf(r) == CASE r \in {"pg3d", "pgother"} -> "3D vector" [] r = "pgmulti" -> "Multi-element" [] OTHER -> "none"
 
 \* Python's isinstance: bool is a subclass of int
 TypeNames(v) == IF Class(v) = "Bool" THEN {"Bool", "Int"} ELSE {Class(v)}
-\* type of the items of a list value: ListInt = [42], ListStr = ["a", "b"]
-ElemTypeNames(v) == IF v = "ListInt" THEN {"Int"} ELSE {"Str"}
+\* items of a list value: ListInt = [42], ListStr = ["a", "b"], LUidObj = [uuid of A], LEntObj = [A],
+\* LUidObjBogus = [uuid of A, unknown uuid], LEntForeign = [object of another workspace]
+Items(v) == CASE v = "ListInt" -> {"Int"} [] v = "ListStr" -> {"Str"} [] v = "LUidObj" -> {"UidObj"}
+              [] v = "LEntObj" -> {"EntObj"} [] v = "LUidObjBogus" -> {"UidObj", "UidBogus"}
+              [] v = "LEntForeign" -> {"EntForeignObj"} [] OTHER -> {}
+ElemTypeNames(v) == UNION {TypeNames(i) : i \in Items(v)}
 
 \* ============================================================== DECLARED: classic forms
 \* ---- which forms need a value (docstring of requires_value, ui_json/utils.py:124-137; params.rst:13-24)
@@ -131,35 +140,43 @@ CodeRequiresValue(f, en) ==
     ELSE TRUE
 
 \* ---- form kinds (docs/content/uijson_format/json_objects.rst; templates.py)
+\* "gdata" = data form whose parent names a GROUP selector (members = everything below the group, i.e. data of
+\* the objects inside it); "objectmulti" = object form with multiSelect: true (a list of identifiers)
 ClassicKinds == {"string", "integer", "float", "bool", "choice", "file",
-                 "object", "group", "data", "pgroup", "datavalue"}
-IdKind(k) == k \in {"object", "group", "data", "pgroup", "datavalue"}
-Scope(k) == IF k \in {"object", "group"} THEN "workspace" ELSE "parent"
+                 "object", "group", "data", "pgroup", "datavalue", "gdata", "objectmulti"}
+IdKind(k) == k \in {"object", "group", "data", "pgroup", "datavalue", "gdata", "objectmulti"}
+Scope(k) == CASE k \in {"object", "group", "objectmulti"} -> "workspace" [] k = "gdata" -> "group" [] OTHER -> "parent"
+MultiSelect(k) == k = "objectmulti"
 DeclaredTypes(k) ==
     CASE k \in {"string", "file", "choice"} -> {"Str"}
       [] k = "integer" -> {"Int"}
       [] k = "float" -> {"Float"}
       [] k = "bool" -> {"Bool"}
-      [] k \in {"object", "group", "data"} -> {"Str", "Uuid", "Entity"}      \* uuid text, uuid or the entity
+      [] k \in {"object", "group", "data", "gdata", "objectmulti"} -> {"Str", "Uuid", "Entity"}  \* uuid text, uuid, entity
       [] k = "pgroup" -> {"Str", "Uuid", "PGroup"}
       [] k = "datavalue" -> {"Str", "Uuid", "Entity", "Int", "Float"}          \* isValue: number or data
 InChoiceList(v) == v = "Choice"
 
 \* The property, clause by clause: type, choice list, well-formed identifier, membership of the
 \* referenced parent object or workspace, property-group type, None allowed iff no value is required.
-Accepts(f, en, v) ==
-    IF v = "None" THEN ~Req(f, en)
-    ELSE /\ TypeNames(v) \cap DeclaredTypes(f.kind) # {}
+\* a multiSelect form takes one such value or a list of them; any other form takes no list
+AcceptsOne(f, v) ==
+         /\ TypeNames(v) \cap DeclaredTypes(f.kind) # {}
          /\ (f.kind = "choice" => InChoiceList(v))
          /\ (IdKind(f.kind) /\ Class(v) \in {"Str", "Uuid", "Entity", "PGroup"}) =>
                 /\ WellFormedId(v)
                 /\ Member(Scope(f.kind), Ref(v))
                 /\ (f.kind = "pgroup" => PgTypeOf(Ref(v)) = "3D vector")
+Accepts(f, en, v) ==
+    IF v = "None" THEN ~Req(f, en)
+    ELSE IF Class(v) = "List" THEN MultiSelect(f.kind) /\ \A i \in Items(v) : AcceptsOne(f, i)
+    ELSE AcceptsOne(f, v)
 
 \* ============================================================== OPERATIONAL: classic path
 \* rule table of one parameter: _validations_from_uijson (validation.py:136-197)
 Table(k, req) ==
-    [types    |-> DeclaredTypes(k) \cup (IF req THEN {} ELSE {"None"}),       \* :192-194
+    [types    |-> DeclaredTypes(k) \cup (IF req THEN {} ELSE {"None"})        \* :192-194
+                  \cup (IF MultiSelect(k) THEN {"List"} ELSE {}),             \* :196-197
      optional |-> ~req,                                                        \* :190
      values   |-> k = "choice",                                                \* :155-159
      uuid     |-> IdKind(k),                                                   \* :142, :168, :174
@@ -170,11 +187,13 @@ Table(k, req) ==
 Promote(v) ==
     CASE v = "UidData" -> "EntData" [] v = "UidOther" -> "EntOther" [] v = "UidObj" -> "EntObj"
       [] v = "UidGroup" -> "EntGroup" [] v = "UidPg3D" -> "Pg3D" [] v = "UidPgMulti" -> "PgMulti"
+      [] v = "LUidObj" -> "LEntObj"                                             \* lists item by item :529-530
       [] OTHER -> v
-PromoteFails(v) == v = "UidBogus"         \* _uid_promotion: association_validator(key, value, geoh5) :541-542
+\* _uid_promotion: association_validator(key, value, geoh5) :541-542, for every uuid item of a list as well
+PromoteFails(v) == v = "UidBogus" \/ "UidBogus" \in Items(v)
 
 \* validator chain (validation.py:249-267); each conjunct is one validator class of shared/validators.py
-RunChain(t, v, dv) ==
+RunScalar(t, v, dv) ==
     /\ ~(v = "None" /\ ~t.optional)                                            \* OptionalValidator :158
     /\ IF Class(v) = "List" /\ "List" \notin t.types                          \* TypeValidator :299-307: a list is
        THEN ElemTypeNames(v) \cap t.types # {}                                \* checked item by item unless list is
@@ -189,33 +208,44 @@ RunChain(t, v, dv) ==
           THEN "PgTypeNeedsEntity" \notin dv /\ PgTypeOf(Ref(v)) = "3D vector"
           ELSE PgTypeOf(Ref(v)) = "3D vector"
     /\ (t.values /\ v # "None") => InChoiceList(v)                             \* ValueValidator :344-352
+\* a list handed to a form whose table lists "List" (multiSelect): every item has to pass the chain; as built
+\* the list passes as a whole (deviation MultiItemsUnchecked)
+RunChain(t, v, dv) ==
+    IF Class(v) = "List" /\ "List" \in t.types
+    THEN "MultiItemsUnchecked" \in dv \/ \A i \in Items(v) : RunScalar([t EXCEPT !.types = @ \ {"List"}], i, dv)
+    ELSE RunScalar(t, v, dv)
 
 \* raw initial value written in the form by the harness, and what InputFile.data holds after loading
 DefaultRaw(k) ==
     CASE k \in {"string", "file"} -> "Str" [] k = "integer" -> "Int" [] k = "float" -> "Float"
       [] k = "bool" -> "True" [] k = "choice" -> "Choice" [] k = "object" -> "UidObj"
       [] k = "group" -> "UidGroup" [] k = "data" -> "UidData" [] k = "pgroup" -> "UidPg3D"
-      [] k = "datavalue" -> "Float"
+      [] k = "datavalue" -> "Float" [] k = "gdata" -> "UidData" [] k = "objectmulti" -> "LUidObj"
 BadValue(k) == IF k \in {"string", "file", "choice"} THEN "Int" ELSE "Str"
 \* a list is never a value of a single-select form (type clause).  Enumerated where no reading of the code's
 \* item-by-item rule (validators_test.py::test_type_validator) could make it acceptable: items of a type the
 \* form does not declare.  ["a","b"] on string forms, [42] on integer / data-or-value forms are not enumerated.
-ListBad(k) == CASE k \in {"integer", "float", "bool"} -> {"ListStr"} [] k = "datavalue" -> {} [] OTHER -> {"ListInt"}
+ListBad(k) == CASE k \in {"integer", "float", "bool"} -> {"ListStr"} [] k \in {"datavalue", "objectmulti"} -> {}
+                [] OTHER -> {"ListInt"}
 
 IdValues == {"SidData", "SidOther", "SidBogus", "UidData", "UidOther", "UidObj", "UidBogus",
              "EntData", "EntOther", "EntObj", "EntForeign", "Pg3D"}
 ClassicValues(k) ==
-    LET common == {"None", "True", "Int", "Float", "Str", "Choice"} IN
+    LET common == {"None", "True", "Int", "Float", "Str", "EmptyStr", "Choice"} IN
     IF ValueSet = "probe" THEN {"None", DefaultRaw(k), BadValue(k)}
     ELSE IF ValueSet = "machine"
     THEN {"None", DefaultRaw(k), BadValue(k)} \cup ListBad(k) \cup
          (CASE k \in {"object", "group"} -> {"SidBogus", "UidBogus", "EntData"}
-            [] k \in {"data", "datavalue"} -> {"SidOther", "UidOther", "EntData"}
+            [] k \in {"data", "datavalue", "gdata"} -> {"SidOther", "UidOther", "EntData"}
             [] k = "pgroup" -> {"Pg3D", "PgMulti"}
+            [] k = "choice" -> {"EmptyStr"}
+            [] k = "objectmulti" -> {"UidBogus", "LEntObj"}
             [] OTHER -> {})
     ELSE ListBad(k) \cup
          CASE k \in {"object", "group"} -> common \cup IdValues \cup {"SidObj", "UidGroup", "EntGroup"}
-           [] k \in {"data", "datavalue"} -> common \cup IdValues
+           [] k \in {"data", "datavalue", "gdata"} -> common \cup IdValues
+           [] k = "objectmulti" -> common \cup {"UidObj", "UidBogus", "EntObj", "EntForeignObj", "LUidObj", "LEntObj",
+                                                "LUidObjBogus", "LEntForeign", "ListInt", "ListStr"}
            [] k = "pgroup" -> common \cup {"UidPg3D", "UidPgMulti", "UidData", "UidBogus",
                                            "Pg3D", "PgMulti", "PgOther", "EntData"}
            [] OTHER -> common \cup {"SidData", "UidData", "EntData"}
